@@ -246,6 +246,10 @@ def run(L, rep, tier, seed):
     # framing headers printed by raw_print follow the choice (same harness as C04, framing obligations only)
     from props import c04
     c04.run(L, rep, tier, seed, prop='C05')
+    # second engine: the version ordering the selection relies on, and the status-code conversions, by Kani/CBMC at full width
+    from mirsym import kani_run
+    kani_run.run(L, rep, 'C05', {'version_ordering_is_lexicographic': 'holds', 'witness_version_ordering_reached': 'witness',
+                                 'status_code_roundtrip': 'holds'})
 
 
 def collect(S, rep, name):
